@@ -12,10 +12,13 @@
 //! ops.txt / impl.txt (same line numbering):
 //!   `case <progs>`            | `ok at=<p0>,<p1>,…`
 //!   `step <tid> <point>`      | `<c> <m> <n> st=<status> at=<next point|done>[ ret <kind> <id> <res>]`
-//!   `rx run|stop|kill`        | `handled=<ids|-> exit=<reason|-> st=<status>`
+//!   `rx run|stop|kill`        | `handled=<ids|-> exit=<reason|-> st=<status> self=<id:res,…|->`
 //!   `end <signature>`         | `word=<c> <m> <n> st=<status> handled=<ids|-> sup=<events> alive=<0|1>`
 //!
-//! usage: admission --seed S --cases N --out DIR [--enum-cap K] [--enum 0|1]
+//!   `stress <i> k= m= drain= stop=` | `sends=<id:res:t0:t1,…> handled=<ids> drain=<t0:t1|-> sup=<events> exited=<0|1>`
+//!                               (free-running threads; t = tickets of one global counter; oracle only)
+//!
+//! usage: admission --seed S --cases N --out DIR [--enum-cap K] [--enum 0|1] [--stress N]
 //!                  [--replay-ops f1,f2 [--only-replay 1]]
 
 use std::cell::RefCell;
@@ -34,7 +37,7 @@ use ractor::{Actor, ActorCell, ActorProcessingErr, ActorRef, Message, MessagingE
 
 #[derive(Clone, Debug, PartialEq)]
 enum Op {
-    Send { nested: Vec<Op>, box_fails: bool },
+    Send { nested: Vec<Op>, box_fails: bool, resend: bool },
     Drain,
     Bad,
 }
@@ -42,8 +45,11 @@ enum Op {
 fn show_ops(ops: &[Op]) -> String {
     ops.iter()
         .map(|o| match o {
-            Op::Send { nested, box_fails } => {
+            Op::Send { nested, box_fails, resend } => {
                 let mut s = String::from(if *box_fails { "sf" } else { "s" });
+                if *resend {
+                    s.push('!');
+                }
                 if !nested.is_empty() {
                     s.push('[');
                     s.push_str(&show_ops(nested));
@@ -76,6 +82,11 @@ fn parse_ops(s: &[u8], i: &mut usize) -> Vec<Op> {
                     bf = true;
                     *i += 1;
                 }
+                let mut resend = false;
+                if *i < s.len() && s[*i] == b'!' {
+                    resend = true;
+                    *i += 1;
+                }
                 let mut nested = Vec::new();
                 if *i < s.len() && s[*i] == b'[' {
                     *i += 1;
@@ -83,7 +94,7 @@ fn parse_ops(s: &[u8], i: &mut usize) -> Vec<Op> {
                     assert!(*i < s.len() && s[*i] == b']', "unbalanced program");
                     *i += 1;
                 }
-                out.push(Op::Send { nested, box_fails: bf });
+                out.push(Op::Send { nested, box_fails: bf, resend });
             }
             b'd' => {
                 *i += 1;
@@ -122,11 +133,22 @@ fn parse_progs(s: &str) -> Vec<Vec<Op>> {
 // the actor under test, its message type and its supervisor
 // ------------------------------------------------------------------------------------------
 
+/// shared between the workers, the controller and the actor's handler (no reference to the actor)
+struct Shared {
+    next_id: AtomicU64,
+    rets: Mutex<Vec<String>>,
+    /// `<id>:<res>` of the sends the handler issued to its own actor
+    selfsends: Mutex<Vec<String>>,
+    /// stress mode: global ticket counter (a total order consistent with real time) and the
+    /// `(id, res, t0, t1)` records of the handler's own sends
+    tick: AtomicU64,
+    self_recs: Mutex<Vec<(u64, String, u64, u64)>>,
+}
+
 struct Ctx {
     aref: ActorRef<Msg>,
     cell: ActorCell,
-    next_id: AtomicU64,
-    rets: Mutex<Vec<String>>,
+    sh: Arc<Shared>,
 }
 
 thread_local! {
@@ -154,6 +176,8 @@ struct Msg {
     id: u64,
     nested: Vec<Op>,
     box_fails: bool,
+    /// the handler sends one more (plain) message to its own actor
+    resend: bool,
 }
 
 /// Carrier with the default (library) boxing, so that `Msg` can run a program inside
@@ -186,10 +210,10 @@ impl Message for Wrong {}
 fn exec_op(ctx: &Arc<Ctx>, op: &Op) {
     verif::point("op.start");
     match op {
-        Op::Send { nested, box_fails } => {
-            let id = ctx.next_id.fetch_add(1, Ordering::SeqCst);
+        Op::Send { nested, box_fails, resend } => {
+            let id = ctx.sh.next_id.fetch_add(1, Ordering::SeqCst);
             cur_push(id);
-            let r = ctx.aref.send_message(Msg { id, nested: nested.clone(), box_fails: *box_fails });
+            let r = ctx.aref.send_message(Msg { id, nested: nested.clone(), box_fails: *box_fails, resend: *resend });
             cur_pop();
             let s = match r {
                 Ok(()) => format!("ret send {id} ok"),
@@ -198,7 +222,7 @@ fn exec_op(ctx: &Arc<Ctx>, op: &Op) {
                 Err(MessagingErr::InvalidActorType) => format!("ret send {id} invalidType"),
                 Err(MessagingErr::ChannelClosed) => format!("ret send {id} channelClosed"),
             };
-            ctx.rets.lock().unwrap().push(s);
+            ctx.sh.rets.lock().unwrap().push(s);
         }
         Op::Drain => {
             let s = match ctx.cell.drain() {
@@ -206,7 +230,7 @@ fn exec_op(ctx: &Arc<Ctx>, op: &Op) {
                 Err(MessagingErr::SendErr(())) => "ret drain 0 drainErr".to_string(),
                 Err(e) => format!("ret drain 0 other({e})"),
             };
-            ctx.rets.lock().unwrap().push(s);
+            ctx.sh.rets.lock().unwrap().push(s);
         }
         Op::Bad => {
             verif::point("send.typecheck");
@@ -215,13 +239,14 @@ fn exec_op(ctx: &Arc<Ctx>, op: &Op) {
                 Ok(()) => "ret bad 0 ok".to_string(),
                 Err(_) => "ret bad 0 other".to_string(),
             };
-            ctx.rets.lock().unwrap().push(s);
+            ctx.sh.rets.lock().unwrap().push(s);
         }
     }
 }
 
 struct Target {
     handled: Arc<Mutex<Vec<u64>>>,
+    sh: Arc<Shared>,
 }
 
 impl Actor for Target {
@@ -231,8 +256,23 @@ impl Actor for Target {
     async fn pre_start(&self, _: ActorRef<Msg>, _: ()) -> Result<(), ActorProcessingErr> {
         Ok(())
     }
-    async fn handle(&self, _: ActorRef<Msg>, m: Msg, _: &mut ()) -> Result<(), ActorProcessingErr> {
+    async fn handle(&self, myself: ActorRef<Msg>, m: Msg, _: &mut ()) -> Result<(), ActorProcessingErr> {
         self.handled.lock().unwrap().push(m.id);
+        if m.resend {
+            // a send from the actor to itself (complete, on the actor's own task)
+            let id = self.sh.next_id.fetch_add(1, Ordering::SeqCst);
+            let t0 = self.sh.tick.fetch_add(1, Ordering::SeqCst);
+            let r = match myself.send_message(Msg { id, nested: Vec::new(), box_fails: false, resend: false }) {
+                Ok(()) => "ok".to_string(),
+                Err(MessagingErr::SendErr(b)) if b.id == id => "sendErr".to_string(),
+                Err(MessagingErr::SendErr(b)) => format!("sendErrWrongMessage({})", b.id),
+                Err(MessagingErr::InvalidActorType) => "invalidType".to_string(),
+                Err(MessagingErr::ChannelClosed) => "channelClosed".to_string(),
+            };
+            let t1 = self.sh.tick.fetch_add(1, Ordering::SeqCst);
+            self.sh.self_recs.lock().unwrap().push((id, r.clone(), t0, t1));
+            self.sh.selfsends.lock().unwrap().push(format!("{id}:{r}"));
+        }
         Ok(())
     }
 }
@@ -311,16 +351,17 @@ fn quiesce(rt: &tokio::runtime::Runtime) {
 fn run_case(env: &mut Env, progs: &[Vec<Op>], eager_local: bool, choose: &mut dyn FnMut(&View) -> Choice) {
     let handled = Arc::new(Mutex::new(Vec::new()));
     let events = Arc::new(Mutex::new(Vec::new()));
+    let shared = Arc::new(Shared { next_id: AtomicU64::new(0), rets: Mutex::new(Vec::new()), selfsends: Mutex::new(Vec::new()), tick: AtomicU64::new(0), self_recs: Mutex::new(Vec::new()) });
     let (aref, sup_ref) = env.rt.block_on(async {
         let (sup_ref, _) = Actor::spawn(None, Sup { events: events.clone() }, ()).await.expect("spawn sup");
-        let (aref, _) = Actor::spawn_linked(None, Target { handled: handled.clone() }, (), sup_ref.get_cell())
+        let (aref, _) = Actor::spawn_linked(None, Target { handled: handled.clone(), sh: shared.clone() }, (), sup_ref.get_cell())
             .await
             .expect("spawn target");
         (aref, sup_ref)
     });
     quiesce(&env.rt);
     let cell = aref.get_cell();
-    let ctx = Arc::new(Ctx { aref: aref.clone(), cell: cell.clone(), next_id: AtomicU64::new(0), rets: Mutex::new(Vec::new()) });
+    let ctx = Arc::new(Ctx { aref: aref.clone(), cell: cell.clone(), sh: shared.clone() });
 
     let mut ctls = Vec::new();
     let mut joins = Vec::new();
@@ -363,6 +404,7 @@ fn run_case(env: &mut Env, progs: &[Vec<Op>], eager_local: bool, choose: &mut dy
 
     let mut rets_seen = 0usize;
     let mut handled_seen = 0usize;
+    let mut self_seen = 0usize;
     let mut events_seen = events.lock().unwrap().len(); // "Started"
     let mut alive = true;
     let mut sig = String::new();
@@ -380,7 +422,7 @@ fn run_case(env: &mut Env, progs: &[Vec<Op>], eager_local: bool, choose: &mut dy
             let (c, m, n) = cell.verif_admission_word();
             let mut obs = format!("{} {} {} st={} at={}", c as u8, m as u8, n, status(&cell), at(&phases[i]));
             {
-                let r = ctx.rets.lock().unwrap();
+                let r = shared.rets.lock().unwrap();
                 for s in &r[rets_seen..] {
                     obs.push(' ');
                     obs.push_str(s);
@@ -424,7 +466,11 @@ fn run_case(env: &mut Env, progs: &[Vec<Op>], eager_local: bool, choose: &mut dy
                 }
             }
             events_seen = e.len().max(events_seen);
-            env.log.rec(format!("rx {what}"), format!("handled={new_h} exit={exit} st={}", status(&cell)));
+            let ss = shared.selfsends.lock().unwrap();
+            let new_self = if ss.len() > self_seen { ss[self_seen..].join(",") } else { "-".to_string() };
+            env.st.add("self_sends", (ss.len() - self_seen) as u64);
+            self_seen = ss.len();
+            env.log.rec(format!("rx {what}"), format!("handled={new_h} exit={exit} st={} self={new_self}", status(&cell)));
             env.st.bump(&format!("rx_{what}"));
             sig.push(match what {
                 "stop" => 'S',
@@ -526,21 +572,39 @@ impl Dfs {
 }
 
 /// All schedules of `progs` (local steps eager). `rx_exit`: additionally the receiver's exit
-/// (`rx stop`) is a schedule choice, taken exactly once at any position.
-fn enumerate(env: &mut Env, name: &str, progs: &[Vec<Op>], rx_exit: bool, cap: u64) -> bool {
+/// (`rx stop`) is a schedule choice, taken exactly once at any position. `rx_runs`: the receiver
+/// may additionally be run to quiescence (`rx run`) at up to that many positions.
+fn enumerate(env: &mut Env, name: &str, progs: &[Vec<Op>], rx_exit: bool, rx_runs: usize, cap: u64) -> bool {
     let mut dfs = Dfs::default();
     let mut count = 0u64;
     let complete = loop {
         dfs.begin();
         let mut used_rx = false;
+        let mut runs = 0usize;
+        let mut last_was_run = false;
         run_case(env, progs, true, &mut |v: &View| {
-            let extra = usize::from(rx_exit && !used_rx);
-            let k = dfs.choose(v.enabled.len() + extra);
+            let mut extra = Vec::new();
+            if rx_exit && !used_rx {
+                extra.push(Choice::RxStop);
+            }
+            // two receiver runs in a row are one
+            if runs < rx_runs && v.alive && !last_was_run {
+                extra.push(Choice::RxRun);
+            }
+            let k = dfs.choose(v.enabled.len() + extra.len());
+            last_was_run = false;
             if k < v.enabled.len() {
                 Choice::T(v.enabled[k].0)
             } else {
-                used_rx = true;
-                Choice::RxStop
+                let c = extra[k - v.enabled.len()];
+                match c {
+                    Choice::RxStop => used_rx = true,
+                    _ => {
+                        runs += 1;
+                        last_was_run = true;
+                    }
+                }
+                c
             }
         });
         count += 1;
@@ -563,7 +627,7 @@ fn gen_ops(rng: &mut Rng, depth: u32, max: u64) -> Vec<Op> {
             let k = rng.below(100);
             if k < 62 {
                 let nested = if depth < 2 && rng.chance(1, 5) { gen_ops(rng, depth + 1, 2) } else { Vec::new() };
-                Op::Send { nested, box_fails: rng.chance(1, 25) }
+                Op::Send { nested, box_fails: rng.chance(1, 25), resend: rng.chance(1, 8) }
             } else if k < 90 {
                 Op::Drain
             } else {
@@ -645,8 +709,145 @@ fn replay_file(env: &mut Env, path: &str) {
     }
 }
 
+/// Free-running stress case (no schedule points, real threads, multi-threaded runtime): K sender
+/// threads x M messages, optionally a drainer and a stopper. Every send takes a ticket from one
+/// global counter before it starts and after it returned (a total order consistent with real time),
+/// so the oracle can judge real-time order without wall-clock times. Judged by the oracle only.
+fn stress_case(env: &mut Env, srt: &tokio::runtime::Runtime, rng: &mut Rng, idx: u64) {
+    let k = rng.range(2, 4) as usize;
+    let m = rng.range(1, 40) as usize;
+    let with_drain = rng.chance(3, 4);
+    let with_stop = rng.chance(1, 8);
+    let resend_every = rng.range(0, 6);
+    let delay = rng.range(0, 30) * rng.range(0, 1500);
+    let handled = Arc::new(Mutex::new(Vec::new()));
+    let events = Arc::new(Mutex::new(Vec::new()));
+    let shared = Arc::new(Shared {
+        next_id: AtomicU64::new(0),
+        rets: Mutex::new(Vec::new()),
+        selfsends: Mutex::new(Vec::new()),
+        tick: AtomicU64::new(0),
+        self_recs: Mutex::new(Vec::new()),
+    });
+    let (aref, handle, sup_ref) = srt.block_on(async {
+        let (sup_ref, _) = Actor::spawn(None, Sup { events: events.clone() }, ()).await.expect("spawn sup");
+        let (aref, h) = Actor::spawn_linked(None, Target { handled: handled.clone(), sh: shared.clone() }, (), sup_ref.get_cell())
+            .await
+            .expect("spawn target");
+        (aref, h, sup_ref)
+    });
+    let cell = aref.get_cell();
+    let recs: Arc<Mutex<Vec<(u64, String, u64, u64)>>> = Arc::new(Mutex::new(Vec::new()));
+    let mut joins = Vec::new();
+    let start = Arc::new(std::sync::Barrier::new(k + usize::from(with_drain) + usize::from(with_stop)));
+    for _ in 0..k {
+        let aref = aref.clone();
+        let sh = shared.clone();
+        let recs = recs.clone();
+        let start = start.clone();
+        joins.push(std::thread::spawn(move || {
+            start.wait();
+            let mut mine = Vec::new();
+            for j in 0..m {
+                let id = sh.next_id.fetch_add(1, Ordering::SeqCst);
+                let resend = resend_every > 0 && (j as u64) % resend_every == 0;
+                let t0 = sh.tick.fetch_add(1, Ordering::SeqCst);
+                let r = aref.send_message(Msg { id, nested: Vec::new(), box_fails: false, resend });
+                let t1 = sh.tick.fetch_add(1, Ordering::SeqCst);
+                let r = match r {
+                    Ok(()) => "ok".to_string(),
+                    Err(MessagingErr::SendErr(b)) if b.id == id => "sendErr".to_string(),
+                    Err(MessagingErr::SendErr(b)) => format!("sendErrWrongMessage({})", b.id),
+                    Err(MessagingErr::InvalidActorType) => "invalidType".to_string(),
+                    Err(MessagingErr::ChannelClosed) => "channelClosed".to_string(),
+                };
+                mine.push((id, r, t0, t1));
+            }
+            recs.lock().unwrap().extend(mine);
+        }));
+    }
+    let drain_rec: Arc<Mutex<Option<(u64, u64)>>> = Arc::new(Mutex::new(None));
+    if with_drain {
+        let cell = cell.clone();
+        let sh = shared.clone();
+        let start = start.clone();
+        let dr = drain_rec.clone();
+        joins.push(std::thread::spawn(move || {
+            start.wait();
+            for _ in 0..delay {
+                std::hint::spin_loop();
+            }
+            let t0 = sh.tick.fetch_add(1, Ordering::SeqCst);
+            let _ = cell.drain();
+            let t1 = sh.tick.fetch_add(1, Ordering::SeqCst);
+            *dr.lock().unwrap() = Some((t0, t1));
+        }));
+    }
+    if with_stop {
+        let cell = cell.clone();
+        let start = start.clone();
+        joins.push(std::thread::spawn(move || {
+            start.wait();
+            for _ in 0..(delay * 3) {
+                std::hint::spin_loop();
+            }
+            cell.stop(None);
+        }));
+    }
+    for j in joins {
+        j.join().expect("stress thread panicked");
+    }
+    // let the actor finish: it exits by itself after a drain / stop; otherwise wait until it has
+    // handled everything that was accepted (bounded), then stop it
+    let exited = srt.block_on(async {
+        if with_drain || with_stop {
+            tokio::time::timeout(Duration::from_secs(10), handle).await.is_ok()
+        } else {
+            let mut all = recs.lock().unwrap().clone();
+            for _ in 0..10000 {
+                all = recs.lock().unwrap().clone();
+                all.extend(shared.self_recs.lock().unwrap().iter().cloned());
+                let oks = all.iter().filter(|r| r.1 == "ok").count();
+                if handled.lock().unwrap().len() >= oks {
+                    break;
+                }
+                tokio::time::sleep(Duration::from_millis(1)).await;
+            }
+            let _ = all;
+            false
+        }
+    });
+    srt.block_on(async { tokio::time::sleep(Duration::from_millis(2)).await });
+    let mut all = recs.lock().unwrap().clone();
+    all.extend(shared.self_recs.lock().unwrap().iter().cloned());
+    all.sort_by_key(|r| r.0);
+    let sends = if all.is_empty() {
+        "-".to_string()
+    } else {
+        all.iter().map(|(id, r, t0, t1)| format!("{id}:{r}:{t0}:{t1}")).collect::<Vec<_>>().join(",")
+    };
+    let drain = drain_rec.lock().unwrap().map_or("-".to_string(), |(a, b)| format!("{a}:{b}"));
+    let obs = format!(
+        "sends={sends} handled={} drain={drain} sup={} exited={}",
+        show_ids(&handled.lock().unwrap()),
+        events.lock().unwrap().join(","),
+        exited as u8
+    );
+    env.log.rec(format!("stress {idx} k={k} m={m} drain={} stop={}", with_drain as u8, with_stop as u8), obs);
+    env.st.bump("stress_cases");
+    env.st.add("stress_sends", all.len() as u64);
+    env.st.add("stress_rejected", all.iter().filter(|r| r.1 != "ok").count() as u64);
+    cell.stop(None);
+    sup_ref.stop(None);
+    srt.block_on(async { tokio::time::sleep(Duration::from_millis(1)).await });
+}
+
 fn s(nested: Vec<Op>) -> Op {
-    Op::Send { nested, box_fails: false }
+    Op::Send { nested, box_fails: false, resend: false }
+}
+/// a send whose handling makes the actor send to itself
+fn sr() -> Op {
+    Op::Send { nested: Vec::new(), box_fails: false, resend: true }
 }
 
 fn main() {
@@ -672,27 +873,30 @@ fn main() {
             vec![vec![s(vec![Op::Drain])]],
             vec![vec![s(vec![]), Op::Bad, s(vec![])], vec![Op::Drain]],
             vec![vec![s(vec![s(vec![]), Op::Drain])], vec![s(vec![])]],
+            vec![vec![sr(), sr()], vec![Op::Drain]],
         ];
         for p in &fixed {
             random_case(&mut env, &mut rng, p, false);
         }
         if do_enum {
             // small configurations: every schedule (up to --enum-cap per configuration)
-            let cfgs: Vec<(&str, Vec<Vec<Op>>, bool)> = vec![
-                ("1s_2d", vec![vec![s(vec![])], vec![Op::Drain], vec![Op::Drain]], false),
-                ("1sx2_1d", vec![vec![s(vec![]), s(vec![])], vec![Op::Drain]], false),
-                ("2s_1d", vec![vec![s(vec![])], vec![s(vec![])], vec![Op::Drain]], false),
-                ("reentrant_1d", vec![vec![s(vec![Op::Drain])], vec![Op::Drain]], false),
-                ("1sx2_rxexit", vec![vec![s(vec![]), s(vec![])]], true),
-                ("1s_1d_rxexit", vec![vec![s(vec![])], vec![Op::Drain]], true),
+            let cfgs: Vec<(&str, Vec<Vec<Op>>, bool, usize)> = vec![
+                ("1s_2d", vec![vec![s(vec![])], vec![Op::Drain], vec![Op::Drain]], false, 0),
+                ("1sx2_1d", vec![vec![s(vec![]), s(vec![])], vec![Op::Drain]], false, 0),
+                ("2s_1d", vec![vec![s(vec![])], vec![s(vec![])], vec![Op::Drain]], false, 0),
+                ("reentrant_1d", vec![vec![s(vec![Op::Drain])], vec![Op::Drain]], false, 0),
+                ("1sx2_rxexit", vec![vec![s(vec![]), s(vec![])]], true, 0),
+                ("1s_1d_rxexit", vec![vec![s(vec![])], vec![Op::Drain]], true, 0),
+                // the actor sends to itself while a drain races: the receiver runs at any two positions
+                ("selfsend_1d_rxrun", vec![vec![sr()], vec![Op::Drain]], false, 2),
             ];
-            for (name, p, rx) in &cfgs {
-                enumerate(&mut env, name, p, *rx, enum_cap);
+            for (name, p, rx, runs) in &cfgs {
+                enumerate(&mut env, name, p, *rx, *runs, enum_cap);
             }
             // and random schedules of the same configurations (what the quick tier samples
             // beyond the enumeration cap)
             for _ in 0..cases / 4 {
-                let (_, p, _) = &cfgs[rng.below(cfgs.len() as u64) as usize];
+                let (_, p, _, _) = &cfgs[rng.below(cfgs.len() as u64) as usize];
                 let p = p.clone();
                 random_case(&mut env, &mut rng, &p, true);
             }
@@ -702,6 +906,13 @@ fn main() {
             let progs: Vec<Vec<Op>> = (0..k).map(|_| gen_ops(&mut rng, 0, 3)).collect();
             let eager = rng.chance(1, 2);
             random_case(&mut env, &mut rng, &progs, eager);
+        }
+    }
+    let stress = args.u64("stress", 0);
+    if stress > 0 && args.u64("only-replay", 0) == 0 {
+        let srt = tokio::runtime::Builder::new_multi_thread().worker_threads(2).enable_time().build().expect("stress runtime");
+        for i in 0..stress {
+            stress_case(&mut env, &srt, &mut rng, i);
         }
     }
     env.st.add("lines", env.log.lines);
